@@ -62,6 +62,15 @@ def _job(job) -> List[Dict[str, Any]]:
         return out
     I, st = oc.I, oc.world.state
     res = oc.result
+    # ---- R9.8 a prediction leaves the ratings alone (otherwise asking again, or asking for the permuted teams, gives another answer)
+    wr = [ev for ev in oc.I.events if ev.kind == "write" and ev.data.get("origin") == "input:player"]
+    if wr:
+        ev = wr[0]
+        mm_, fn_, ln_ = where(ev)
+        inst("R9.8", "VIOLATED", norm_text(ev.node, 90), f"predict_win writes attribute '{ev.data['field']}' of a passed rating: the answer to the next (e.g. permuted) query on the same ratings is no longer "
+             "the permutation of this one", {}, mm_, fn_, ln_)
+    else:
+        inst("R9.8", "HOLDS", f"predict_win writes no attribute of the passed ratings ({case})")
     # ---- R9.6 teams are positions, not values
     ve = valeq_instances(oc, "R9.6", "so identical teams do not get their pair terms (probabilities no longer sum to 1, two identical teams do not get one half each)")
     for d in ve:
